@@ -43,6 +43,8 @@ def run_one(name, tier="quick"):
                                 "tail": p.stdout[-600:]}
     finally:
         sh(["git", "-C", REPO, "checkout", "--", "."])
+        # generated files follow /repo's text: bring them back to the clean tree
+        sh([sys.executable, os.path.join(VERIF, "tools", "c2gallina.py")])
     return res
 
 
